@@ -191,3 +191,38 @@ func HoistedSet(groups [][]string) []int {
 	}
 	return sizes
 }
+
+// ---- one-slot caches (C08/R18, C18/R15) ----
+
+type slotOwner struct {
+	lastKey string
+	lastVal int
+	table   map[string]map[int]int
+}
+
+// LastLookup remembers the previous answer but tests only one of the two inputs it was computed from.
+func (o *slotOwner) LastLookup(key string, n int) int {
+	if o.lastKey == key {
+		return o.lastVal
+	}
+	v := o.table[key][n]
+	o.lastKey, o.lastVal = key, v
+	return v
+}
+
+// LastLookupOK tests both.
+type slotOwner2 struct {
+	lastKey string
+	lastN   int
+	lastVal int
+	table   map[string]map[int]int
+}
+
+func (o *slotOwner2) LastLookupOK(key string, n int) int {
+	if o.lastKey == key && o.lastN == n {
+		return o.lastVal
+	}
+	v := o.table[key][n]
+	o.lastKey, o.lastN, o.lastVal = key, n, v
+	return v
+}
